@@ -390,9 +390,21 @@ func runC11(args []string) error {
 			}
 			lg.Emit(ev)
 			// RowReduceForInverse with a non-identity right-hand side
-			if n <= 64 {
+			for variant := 0; variant < 2 && n <= 64; variant++ {
 				cols := 1 + rng.Intn(n+2)
 				nm := randMat(rng, n, cols)
+				if variant == 1 {
+					// the shape the coder passes: N = (N_L | I) with a few dense columns on the left
+					l := 1 + rng.Intn(3)
+					cols = l + n
+					nm = randMat(rng, n, cols)
+					for i := 0; i < n; i++ {
+						for j := 0; j < n; j++ {
+							nm[i][l+j] = 0
+						}
+						nm[i][l+i] = 1
+					}
+				}
 				gn := nm.toGopar()
 				res, err := func() (r gf2p16.Matrix, e error) {
 					defer func() {
